@@ -224,9 +224,19 @@ NEEDS.update({
  "s15": "start-up timing: the first policy arrives while the namespace informer has not synced yet (real lazily started informers)",
  "s16": "fault or foreign change: the jumps from FORWARD/INPUT/OUTPUT are missing while GLX-INGRESS/GLX-EGRESS exist (failed first sync, external flush)",
  "s20": "mixed encodings: RemoveIP of a range end given as a 4-byte address, or of an end an earlier RemoveIP has moved",
+ "t01": "lifecycle: a bound pod is deleted gracefully (deletion timestamp set, still running) and the update event, a resync pass or the release API looks at it",
+ "t04": "config shape + reload: a live pod holds an address of the second of two pools sharing one pod subnet when the configuration is reloaded",
+ "t09": "fault + retry: the list of FloatingIP objects fails inside the first reload to a changed configuration; the retry must still apply it",
+ "t12": "crash: the daemon dies while writing a container's state file (the record is cut short); DEL, then DEL again",
+ "t13": "input outside the domain: the runtime's CNI_ARGS already carry an ipinfos entry",
+ "t16": "multi-step + value relation: a selected pod is re-addressed to an address whose text is a prefix of the old one (10.0.0.12 -> 10.0.0.1)",
+ "t17": "input: a dead container whose port file lists the same host port number for tcp and udp",
+ "t18": "input (hash coincidence): a deployment pod whose pod lock key and deployment lock key fall into the same slot of a 500000-slot hashed mutex",
+ "t19": "concurrency + input: two ADD requests of pods with >= 2 networks from the json configuration in flight at once",
+ "t20": "config shape + reload: a stored address inside a pool's subnet but outside its ranges (shrunk ranges, or the second pool of a shared subnet)",
  "q20": "multi-step: remove an address from the last range of a pool and insert it back (tryMerge at the tail)",
 })
-OTHER = {'s02': ['C03'], 's13': ['C06', 'C09'], 's16': ['C15'], 'r01': ['C05', 'C04'], 'r08': ['C06'], 'r18': ['C09'], 'q02': ['C03'], 'q05': ['C04'], 'q06': ['C04', 'C01'], 'p07': ['C02'], 'p01': ['C04'], 'n03': ['C04'], 'n01': ['C04'], 'n08': ['C06'], 'm06': ['C09'], 'm02': ['C03'], 'l17': ['C14'], 'l08': ['C09'], 'l10': ['C04'], 'l01': ['C04'], 'k20': ['C09'], 'k02': ['C07'], 'k05': ['C09'], 'j08': ['C05'], 'j01': ['C04'], 'b02': ['C03', 'C05'], 'a04': ['C10'], 'd02': ['C06'], 'd09': ['C05', 'C06'], 'e06': ['C08', 'C05'], 'e01': ['C09', 'C05'], 'e10': ['C04'], 'e04': ['C01'], 'f13': ['C12'], 'd01': ['C04'], 'i02': ['C05'], 'i06': ['C09', 'C05'], 'i04': ['C01'], 'g02b': ['C06'], 'g10': ['C04'], 'g19': ['C06'], 'f16a': ['C15'], 'f15b': ['C16']}
+OTHER = {'t01': ['C04'], 't16': ['C15'], 't17': ['C14'], 't20': ['C09', 'C06'], 's02': ['C03'], 's13': ['C06', 'C09'], 's16': ['C15'], 'r01': ['C05', 'C04'], 'r08': ['C06'], 'r18': ['C09'], 'q02': ['C03'], 'q05': ['C04'], 'q06': ['C04', 'C01'], 'p07': ['C02'], 'p01': ['C04'], 'n03': ['C04'], 'n01': ['C04'], 'n08': ['C06'], 'm06': ['C09'], 'm02': ['C03'], 'l17': ['C14'], 'l08': ['C09'], 'l10': ['C04'], 'l01': ['C04'], 'k20': ['C09'], 'k02': ['C07'], 'k05': ['C09'], 'j08': ['C05'], 'j01': ['C04'], 'b02': ['C03', 'C05'], 'a04': ['C10'], 'd02': ['C06'], 'd09': ['C05', 'C06'], 'e06': ['C08', 'C05'], 'e01': ['C09', 'C05'], 'e10': ['C04'], 'e04': ['C01'], 'f13': ['C12'], 'd01': ['C04'], 'i02': ['C05'], 'i06': ['C09', 'C05'], 'i04': ['C01'], 'g02b': ['C06'], 'g10': ['C04'], 'g19': ['C06'], 'f16a': ['C15'], 'f15b': ['C16']}
 only = sys.argv[1:]
 for sid, (prop, pkg) in SEEDS.items():
     if only and sid not in only: continue
